@@ -423,7 +423,11 @@ class Group:
                     str_ += '*'
                 else:
                     str_ += ' '
-                str_ += " {0:4d}{1:>2s} ".format(int(100.0*self.buried), "%")
+                # the average over n conformations carries round-off noise
+                # (0.35 -> 0.35 - 1 ulp for three identical models): do not
+                # let int() turn that into a different percentage
+                str_ += " {0:4d}{1:>2s} ".format(
+                    int(round(100.0*self.buried, 6)), "%")
                 str_ += " {0:6.2f} {1:4d}".format(
                     self.energy_volume, int(self.num_volume))
                 str_ += " {0:6.2f} {1:4d}".format(
